@@ -211,6 +211,14 @@ INFO = {
  ('11','C13','m2'): ("ReplaySubject stores its inner registration only if the subscriber is still subscribed after registering: the first subscriber of replay() ends while it is being registered", ['C10']),
  ('11','C14','m1'): ("take_last reuses an operator-level buffer when Arc::strong_count says nobody else holds it (check and clone not atomic): two threads subscribe the same value at once", []),
  ('11','C14','m2'): ("retry(n) rebuilt on retry_when with a counting predicate built once per observable value: earlier subscriptions that recovered after a retry use up the budget of later ones", ['C04']),
+ ('12','C01','m1'): ("the terminal guard is a std::sync::Once whose is_completed() gates the items: an item that arrives while the terminal callback is still running gets through (and a terminal signalled from inside a terminal callback re-enters call_once)", ['C19']),
+ ('12','C06','m2'): ("start_with's prefix loop no longer polls is_subscribed: an endless (or very long) prefix under take / first / contains never stops being pulled", ['C07']),
+ ('12','C07','m1'): ("take_last clears its buffer under the write lock while the flush loop still holds the read lock: the subscriber leaves after one flushed item but before the last (take(1) downstream, or unsubscribes itself)", []),
+ ('12','C08','m1'): ("the worker reads the abort flag once before cond.wait_while instead of inside the predicate: abort from another thread while the worker is idle in the wait - it goes back to sleep for ever (delivered as C07/m2)", ['C15']),
+ ('12','C11','m2'): ("flat_map releases its (shared) mapping function when a stream is finalized: the same flat_map value is subscribed again, or a sibling subscription ends between two outer items", ['C14']),
+ ('12','C15','m2'): ("subscribe_on registers its finalizer after posting the subscribe job: the stream ends on the worker before the subscribing thread has registered it", []),
+ ('12','C16','m2'): ("sample reads its slot under the read lock and empties it only after the hand-over: a second trigger while the previous sample is still being delivered re-delivers the item", ['C03']),
+ ('12','C19','m2'): ("arrival numbering with an off-by-one admits the first item after the terminal: a thread already holds the subscriber while another delivers the terminal", ['C01']),
  ('3','C14','m2'): ("amb's winner cell hoisted out of the per-subscription closure: a second subscription in which a source in a different position signals first", []),
 }
 
